@@ -61,6 +61,14 @@ def stepLine (st : MSt) (line : String) : MSt × String :=
           let mids := (List.range (d - 1)).map (fun j => s!"inner{j + 2} x{j + 1}\n")
           (st, Drv.textToHex (("inner1\n" ++ String.join mids ++ s!"outer x{d}\nplain\n").toList))
         | none => (st, "bad-op")
+      -- … with `use_windows_line_ending()`: every line, also the nested ones, ends with CR LF
+      | ["RECURSE", _mode, _target, depth, "crlf"] =>
+        match depth.toNat? with
+        | some d =>
+          if d = 0 then (st, "bad-op") else
+          let mids := (List.range (d - 1)).map (fun j => s!"inner{j + 2} x{j + 1}\r\n")
+          (st, Drv.textToHex (("inner1\r\n" ++ String.join mids ++ s!"outer x{d}\r\nplain\r\n").toList))
+        | none => (st, "bad-op")
       | _ => (st, "bad-op")
     -- robustness histories (C10): the only prediction is "the call returns"
     | .robust => (st, "ok")
